@@ -115,4 +115,11 @@ PROPS = {
         ],
         "fuzz": [{"mod": "h23", "pkg": "c03", "target": "FuzzC03_Head", "secs": 300}],
     },
+    "C01": {
+        "level": "exploration",
+        "units": [
+            R("h26", "c01", "TestC01_Random", (2500, 12, 1500), (60000, 16, 6000)),
+            E("h26", "c01", "TestC01_Sweep", (4, 1500), (16, 6000)),
+        ],
+    },
 }
